@@ -374,3 +374,9 @@ TRUSTED = TRUSTED + [
     "translator tie: harness/translate_dt.py (DtPy) re-translates tzfile._find_last_transition/_get_ttinfo/_find_ttinfo/_resolve_ambiguous_time/_offset_before/is_ambiguous/fromutc/utcoffset/dst/tzname, _datetime_to_timestamp and tzrangebase._dst_base_offset/_naive_isdst/is_ambiguous/_isdst/utcoffset/dst/tzname/fromutc from /repo on every run into Generated/TzKernels.lean; Proofs/TzGenEq*.lean prove each equal to the function of Model/Zones.lean (for datetimes with microseconds; tzfile: on every coherent zone, i.e. build of a WF table with a transition), Properties/TzGen.lean lists the obligations gen_eq_model_* and the `_gen` twins in the audit; a behaviour-changing edit breaks the translation or a named obligation",
     "named primitives of the DtPy translator (Model/DtPy.lean), trusted with their documented meaning and exercised by the tzgen.* validation against the implementation's methods on every run: a datetime as (microseconds of the naive reading, fold, tzinfo-is-self), datetime +/- timedelta resets fold, timedelta.total_seconds() as an exact number (float rounding not modelled), int() truncation, bisect.bisect_right as its loop, list indexing with IndexError, attribute of None as AttributeError, unpacking None as TypeError, OverflowError of datetime arithmetic not modelled, `dt is None` tests on datetime parameters statically false; in the `_tzinfo` base-class functions `dt.utcoffset()`/`dt.dst()` are the zone's abstract offset functions applied to (wall seconds, fold) and `self.is_ambiguous(dt)` is dynamic dispatch (DtPy.dispatchAmbiguous: a subclass override if the GenericZone has one, else the translated base method)",
 ]
+
+# --- appended by the translator tie (wt-iso), tzlocal: _naive_is_dst/is_ambiguous/_isdst/utcoffset/dst/tzname are re-translated
+# (Generated/TzObjKernels.lean) and compared with a real tz.tzlocal() under TZ settings (op tzgen.local.wall, in tzgenlib.validate)
+TRUSTED = TRUSTED + [
+    "tzlocal translator tie: `time.localtime(u).tm_isdst` and `time.timezone` are named primitives (Model/ObjPy.lean: localtimeIsdst = the zone model's yearly-rule predicate localNaiveIsdst at u + stdoffset with the fraction floored, timeTimezone = -stdoffset); `getattr(dt, 'fold', None)` is the fold (Python >= 3.6); exercised against tz.tzlocal() under several TZ settings on every run",
+]
